@@ -57,9 +57,12 @@ def cases_for(prop, tier):
         yield {'stack': 'get', 'vec': 'ss', 'pending': False}
         yield {'stack': 'get', 'vec': 'sw', 'pending': True, 'twice': True}
         yield {'stack': 'get', 'vec': 'sws', 'pending': False, 'same_ids': True}
+        yield {'stack': 'get', 'vec': 'sw', 'pending': True, 'in_file': True}
     elif prop == 'C15':
         yield {'stack': 'same-uid', 'n': 2}
         yield {'stack': 'same-uid', 'n': 2, 'pre': True}
+        # C-STORE sub-operations received by the requesting side of an association (C-GET) into files
+        yield {'stack': 'get', 'vec': 'sw', 'pending': True, 'in_file': True}
     elif prop == 'C20':
         yield {'stack': 'same-uid', 'n': 2}
         yield {'stack': 'same-uid', 'n': 2, 'pre': True}       # the instance is already in the directory
@@ -279,14 +282,26 @@ def make(case):
                     if vec[i] == 'f':
                         raise exceptions.EventHandlingError('cannot keep it')
                     return statuses.Status(OUT[vec[i]], None)
-            cae = GetClient('SCU', [IMPL], 16384).add_scu(sopclass.qr_get_scu).add_scu(sopclass.storage_scu, [CT, MR])
+            if case.get('in_file'):
+                # retrieved instances are received into files (the way the library's documentation recommends for C-GET)
+                def keep(asce, ctx, ds, msg_id):
+                    raise AssertionError('not used')
+                keep.sop_classes = [CT, MR]
+                keep.store_in_file = True
+                cae = GetClient('SCU', [IMPL], 16384).add_scu(sopclass.qr_get_scu).add_scu(keep)
+            else:
+                cae = GetClient('SCU', [IMPL], 16384).add_scu(sopclass.qr_get_scu).add_scu(sopclass.storage_scu, [CT, MR])
 
             def body(asce):
                 got = []
                 results['get'] = got
                 for rep in range(2 if case.get('twice') else 1):     # a second retrieve on the same association
                     for c, d in asce.get_scu(GET)(dsgen.make('query'), 41 + rep):
-                        got.append((str(c.sop_class), dsgen.enc(d, IMPL)))
+                        if hasattr(d, 'read'):
+                            d.seek(0)
+                            got.append((str(c.sop_class), 'file', d.read()))
+                        else:
+                            got.append((str(c.sop_class), dsgen.enc(d, IMPL)))
             sched.spawn(run_client(body, cae, {'aet': 'QR', 'address': 'srv', 'port': 104}), 'client')
 
         elif kind == 'commit':
@@ -618,8 +633,13 @@ def judge(case, out):
         kept = [i for i in range(n) if vec[i] != 'f']
         exp_all = [r['insts'][i][1] for i in range(n)] * reps
         exp_kept = [r['insts'][i][1] for i in kept] * reps
-        gd = [d for _, d in got]
-        if gd != exp_all and gd != exp_kept:
+        gd = [g[-1] for g in got]
+        if case.get('in_file'):
+            if len(gd) not in (len(exp_all), len(exp_kept)) or [g[1] for g in got] != ['file'] * len(got) or \
+                    not all(a.endswith(b) for a, b in zip(gd, exp_all if len(gd) == len(exp_all) else exp_kept)):
+                viol.append((sig + ':instances', 'file-backed retrieve: the caller was handed %r, provider sent %d instances (%s)' % (
+                    [(g[1], len(g[-1])) for g in got], n, where)))
+        elif gd != exp_all and gd != exp_kept:
             viol.append((sig + ':instances', 'caller was handed %d instances %r, provider sent %d (%s)' % (
                 len(gd), [exp_all.index(d) if d in exp_all else '?' for d in gd], n, where)))
         rsps = [x for x in log if x[0] == 'store-rsp']
